@@ -2,6 +2,7 @@ SPECIFICATION Spec
 CONSTANTS
   MaxFields = 4
   EscAbsCheck = TRUE
+  DupCheck = TRUE
   RangeCheck = TRUE
 INVARIANT Total
 INVARIANT Rejects
